@@ -323,6 +323,26 @@ pub fn show_occ(o: &Occurence) -> String {
     )
 }
 
+/// A token type that implements only the two mandatory methods of `Token`: the hint methods are the trait's defaults.
+pub struct PlainTok<'a>(&'a HTok);
+impl<'a> Token for PlainTok<'a> {
+    fn text(&self) -> &str {
+        &self.0.text
+    }
+    fn text_lowercase(&self) -> &str {
+        &self.0.lower
+    }
+}
+
+/// `find_numbers` / `find_numbers_iter` on tokens with the DEFAULT hint methods (answer: occurrences | iterator trace)
+fn run_scan_plain<L: LangInterpreter>(l: &L, thr: f64, toks: &[HTok]) -> String {
+    let occs = find_numbers(toks.iter().map(PlainTok), l, thr);
+    let occs_s: Vec<String> = occs.iter().map(show_occ).collect();
+    let it = find_numbers_iter(toks.iter().map(PlainTok), l, thr);
+    let lazy: Vec<String> = it.map(|o| show_occ(&o)).collect();
+    format!("{}|{}|{}", occs_s.join(","), lazy.join(","), bs(DigitString::default().to_string() == DigitString::new().to_string() && DigitString::default().is_empty()))
+}
+
 fn run_scan<L: LangInterpreter>(l: &L, thr: f64, toks: &[HTok]) -> String {
     // batch
     let occs = find_numbers(toks.iter(), l, thr);
@@ -428,6 +448,10 @@ pub fn exec(langs: &Langs, line: &str) -> String {
             .unwrap_or("no-lang".into()),
             ["text", lc, thr, text] => with_lang!(langs, lc, l, {
                 escape(&replace_numbers_in_text(&unescape(text), l, parse_thr(thr)))
+            })
+            .unwrap_or("no-lang".into()),
+            ["scanp", lc, thr, toks] => with_lang!(langs, lc, l, {
+                run_scan_plain(l, parse_thr(thr), &parse_tokens(toks))
             })
             .unwrap_or("no-lang".into()),
             ["scan", lc, thr, toks] => with_lang!(langs, lc, l, {
